@@ -133,6 +133,11 @@ func (e *C15) one(ctx *core.Ctx) {
 		rsB.Status = v1.ExtendedDaemonSetReplicaSetStatus{Status: "canary", Desired: int32(len(prev))}
 		eds.Status.Desired = int32(targeted) // active desired excludes canary nodes in reality; keep the documented base
 	}
+	if r.Intn(5) == 0 {
+		// a paused canary is still a canary: its nodes are selected and kept like those of any other
+		eds.Annotations[v1.ExtendedDaemonSetCanaryPausedAnnotationKey] = "true"
+		ctx.Count("C15.paused-canary-cases")
+	}
 	s.Inject(eds)
 	s.Inject(rsA)
 	s.Inject(rsB)
